@@ -161,6 +161,8 @@ class RealHost:
 
     def get_build_status(self, sha, key):
         sha = sha.strip()
+        self.asked = getattr(self, 'asked', [])
+        self.asked.append(sha)
         for full, s in self.status.items():
             if full.startswith(sha) or sha.startswith(full):
                 return s
@@ -197,7 +199,18 @@ class RealHost:
 
                 def decline(self):
                     host.ops.append(('decline', p.id))
+
+                def get_approvals(self):
+                    return ['contributor', 'peer']
+
+                def get_participants(self):
+                    return ['contributor', 'peer']
+
+                def get_change_requests(self):
+                    return []
             self.objs[pid] = _PR()
+            self.objs[pid].status = getattr(self, 'pr_status', 'OPEN')
+            self.objs[pid].comments = []
         return self.objs[pid]
 
     def get_pull_requests(self, src_branch=None, **kw):
